@@ -1,0 +1,40 @@
+//go:build verif
+
+package rtpconn
+
+import (
+	"github.com/jech/galene/conn"
+	"github.com/jech/galene/packetcache"
+	"github.com/jech/galene/unbounded"
+)
+
+// VerifWriter drives the real writer pool (rtpWriterPool, rtpWriterLoop,
+// sendSequence) of an up track that consists of a packet cache only: the
+// caller plays the receive loop (Store, then Write of the stored index) and
+// supplies the down tracks.
+type VerifWriter struct {
+	up   *rtpUpTrack
+	pool rtpWriterPool
+}
+
+func NewVerifWriter(capacity int) *VerifWriter {
+	up := &rtpUpTrack{
+		cache:   packetcache.New(capacity),
+		actions: unbounded.New[trackAction](),
+	}
+	return &VerifWriter{up: up, pool: rtpWriterPool{track: up}}
+}
+
+// Store stores a packet in the up track's cache, as readLoop does.
+func (w *VerifWriter) Store(seqno uint16, ts uint32, kf, marker bool, buf []byte) (uint16, uint16) {
+	return w.up.cache.Store(seqno, ts, kf, marker, buf)
+}
+
+// Write hands a stored packet to all writers, as readLoop does.
+func (w *VerifWriter) Write(seqno, index uint16, delay uint32, isvideo, marker bool) {
+	w.pool.write(seqno, index, delay, isvideo, marker)
+}
+
+func (w *VerifWriter) Add(t conn.DownTrack) error { return w.pool.add(t, true) }
+func (w *VerifWriter) Del(t conn.DownTrack) error { return w.pool.add(t, false) }
+func (w *VerifWriter) Close()                     { w.pool.close() }
